@@ -6,7 +6,7 @@
    (evidence: tested, not proved). *)
 From Coq Require Import List NArith ZArith Bool String Permutation.
 From Verif Require Import Model.Analyzer Gen.GenStages Proofs.AnalyzerProofs Base.Text Model.Scope Proofs.ScopeProofs Gen.GenRules Model.Rules Proofs.RulesProofs.
-From Verif Require Model.ExprKind Proofs.ExprKindProofs Model.DataDecl Proofs.DataDeclProofs Proofs.DataDeclComplete.
+From Verif Require Gen.GenDataDecl Proofs.DataDeclGen Model.ExprKind Proofs.ExprKindProofs Model.DataDecl Proofs.DataDeclProofs Proofs.DataDeclComplete.
 Import ListNotations.
 
 (* P0003 / P0005: the scan reports nothing exactly when the names are pairwise distinct, and the verdict
@@ -186,3 +186,12 @@ Proof. exact DataDeclComplete.alias_kind_exact. Qed.
 Theorem C02_alias_walk_accepts_well_formed : forall fs, DataDeclComplete.wf fs ->
   exists s, DataDecl.dwalk DataDecl.dinit0 fs = inl s /\ DataDeclComplete.inv fs s.
 Proof. exact DataDeclComplete.walk_ok. Qed.
+
+(* the model of the alias resolution is the source's: the regenerated table of xform_resolve_late_bound_data_decl.rs (the
+   three kinds of declaration that enter the graph; what a late-bound declaration becomes for each datum of a root) is the
+   model's *)
+Theorem C02_alias_resolution_model_is_the_source :
+  map snd GenDataDecl.gen_added = map DataDeclGen.dkind_name DataDeclGen.all_dkinds /\
+  GenDataDecl.gen_fold = map (fun d => (DataDeclGen.ndata_name d, DataDeclGen.ndata_result d))
+                             [DataDecl.NdKind DataDecl.DkSimple; DataDecl.NdKind DataDecl.DkEnum; DataDecl.NdKind DataDecl.DkStruct; DataDecl.NdLate; DataDecl.NdUnspec].
+Proof. exact DataDeclGen.model_is_the_source. Qed.
